@@ -67,6 +67,7 @@ import Tie.Binders
 #print axioms Sourcer.C17_nested_sequences
 #print axioms Sourcer.C17_nested_options
 #print axioms Sourcer.C17_nested_failing_choices
+#print axioms Sourcer.C17_spilled_helper_same_outcome
 #print axioms Sourcer.C18_interleaving
 #print axioms Sourcer.C19_sugar
 #print axioms Sourcer.C19_repeat
